@@ -100,3 +100,84 @@ fn rec(s: &mut Sym, slots: &[(usize, Vec<usize>)], k: usize, end12: usize, end01
         s.v[*i][d] = 1;
     }
 }
+
+/// The lens space L(p, q) as a one-tile D-set (12p chambers): a p-gonal
+/// bipyramid whose top face T_i = (N, e_i, e_{i+1}) is glued to the bottom
+/// face B_{i+q} = (S, e_{i+q}, e_{i+q+1}). Independent of the repository;
+/// callers verify it with dsx::manifold_check and homology::h1 == [p].
+pub fn lens_space(p: usize, q: usize) -> Sym {
+    let n = 12 * p;
+    // chamber id of flag k (0..6) of face f (0..2p), 1-based
+    let id = |f: usize, k: usize| f * 6 + k + 1;
+    let mut op = vec![vec![0usize; n + 1]; 4];
+    for f in 0..2 * p {
+        // k: 0:(v0,a) 1:(v0,b) 2:(v1,a) 3:(v1,c) 4:(v2,b) 5:(v2,c)
+        for (a, b) in [(0, 2), (1, 4), (3, 5)] {
+            op[0][id(f, a)] = id(f, b);
+            op[0][id(f, b)] = id(f, a);
+        }
+        for (a, b) in [(0, 1), (2, 3), (4, 5)] {
+            op[1][id(f, a)] = id(f, b);
+            op[1][id(f, b)] = id(f, a);
+        }
+    }
+    for half in 0..2 {
+        for i in 0..p {
+            let f = half * p + i;
+            let prev = half * p + (i + p - 1) % p;
+            // edge a of this face is edge b of the previous one
+            op[2][id(f, 0)] = id(prev, 1);
+            op[2][id(prev, 1)] = id(f, 0);
+            op[2][id(f, 2)] = id(prev, 4);
+            op[2][id(prev, 4)] = id(f, 2);
+        }
+    }
+    for i in 0..p {
+        // equatorial edge c joins T_i and B_i
+        for k in [3, 5] {
+            op[2][id(i, k)] = id(p + i, k);
+            op[2][id(p + i, k)] = id(i, k);
+        }
+        // face pairing T_i -> B_{i+q}
+        let j = p + (i + q) % p;
+        for k in 0..6 {
+            op[3][id(i, k)] = id(j, k);
+            op[3][id(j, k)] = id(i, k);
+        }
+    }
+    let mut v = vec![vec![1usize; n + 1]; 3];
+    for row in v.iter_mut() {
+        row[0] = 0;
+    }
+    Sym { n, dim: 3, op, v }
+}
+
+#[cfg(test)]
+mod tests {
+    use super::*;
+    use crate::dsx::manifold_check;
+    use crate::homology::h1;
+
+    #[test]
+    fn lens_spaces_are_manifolds_with_cyclic_h1() {
+        for p in 3..=12usize {
+            for q in 1..p {
+                if gcd(p, q) != 1 {
+                    continue;
+                }
+                let l = lens_space(p, q);
+                manifold_check(&l).unwrap_or_else(|e| panic!("L({},{}) not a manifold: {}", p, q, e));
+                assert!(l.is_connected());
+                assert_eq!(h1(&l).unwrap(), vec![p as u64], "L({},{})", p, q);
+            }
+        }
+    }
+
+    fn gcd(a: usize, b: usize) -> usize {
+        if b == 0 {
+            a
+        } else {
+            gcd(b, a % b)
+        }
+    }
+}
